@@ -8,7 +8,7 @@ import (
 
 // C17 — conventional pagers are resolved correctly. The grid is enumerated
 // exhaustively: N in 2..12 x k in 1..N x 6 URL families x 3 href forms x
-// page URL without / with trailing slash (path families) x 3 separators x 3
+// page URL without / with trailing slash (path families) x 6 separators x 4
 // decorations of the current page (page-number algorithm), and x 5 label
 // pairs x {with, without numbered links} (prev/next algorithm). The thorough
 // tier adds 4 wrappers x {with, without surrounding article noise}.
@@ -35,8 +35,8 @@ func c17Grid(tier string) []pagerSpec {
 					for k := 1; k <= N; k++ {
 						for _, wrap := range wraps {
 							for _, noise := range noises {
-								for sep := 0; sep < 3; sep++ {
-									for deco := 0; deco < 3; deco++ {
+								for sep := 0; sep < len(pagerSeps); sep++ {
+									for deco := 0; deco < 4; deco++ {
 										out = append(out, pagerSpec{Fam: fam, N: N, K: k, Form: form, Slash: slash, Sep: sep, Deco: deco, Wrap: wrap, Noise: noise})
 									}
 								}
